@@ -200,9 +200,14 @@ func (y *Yaml) GetMapKeys() ([]string, error) {
 		return nil, err
 	}
 	keys := make([]string, 0)
-	for k := range m {
-		keys = append(keys, k)
-
+	// document order (each key once): ranging over the map made the order in which constraints are parsed, and with
+	// it generated variable names, trace order and report ids, differ from run to run
+	for i := 0; i+1 < len(y.data.Content); i += 2 {
+		k := y.data.Content[i].Value
+		if _, ok := m[k]; ok {
+			keys = append(keys, k)
+			delete(m, k)
+		}
 	}
 	return keys, nil
 }
